@@ -1,9 +1,18 @@
 #!/bin/bash
-# usage: mkwt.sh <name>   -> /tmp/wt/<name>: detached worktree of /repo HEAD with Cargo.lock and a warm target dir
+# usage: mkwt.sh <name>   -> /tmp/wt/<name>: detached worktree of /repo HEAD with Cargo.lock; builds without
+# debuginfo (keeps the per-worktree target dir small: disk is limited)
 set -e
 n=$1
 mkdir -p /tmp/wt
 git -C /repo worktree add --detach /tmp/wt/$n HEAD >/dev/null 2>&1
 cp /repo/Cargo.lock /tmp/wt/$n/Cargo.lock
-if [ "$2" != "--cold" ]; then cp -r /repo/target /tmp/wt/$n/target; fi
+mkdir -p /tmp/wt/$n/.cargo
+cat > /tmp/wt/$n/.cargo/config.toml <<'EOC'
+[profile.dev]
+debug = false
+[profile.test]
+debug = false
+[net]
+offline = true
+EOC
 echo /tmp/wt/$n
